@@ -13,8 +13,12 @@ impl GenerationPass for EliminateDeadCodeDirectionsPass {
 
         let nodes = cfg.nodes();
         let mut changed = true;
+        #[cfg(rva_verif)]
+        crate::verif_hooks::begin("dead-code");
         while changed {
             changed = false;
+            #[cfg(rva_verif)]
+            crate::verif_hooks::sweep("dead-code");
             let old = nodes.clone();
             for node in nodes {
                 if node.is_return() || node.is_any_entry() || node.might_terminate() {
